@@ -13,6 +13,7 @@ import Driver.Conc
 import Driver.Supervise
 import Driver.UdpNet
 import Driver.UringSend
+import Driver.UringRecv
 
 def main (args : List String) : IO UInt32 := do
   match args with
@@ -31,6 +32,7 @@ def main (args : List String) : IO UInt32 := do
   | ["supervise"] => SuperviseDrv.main; return 0
   | ["udpnet"] => UdpNetDrv.main; return 0
   | ["uringsend"] => UringSendDrv.main; return 0
+  | ["uringrecv"] => UringRecvDrv.main; return 0
   | _ =>
     IO.eprintln "usage: driver <family>   (lines on stdin)"
     return 2
